@@ -28,6 +28,31 @@ def sh(cmd, **kw):
     return subprocess.run(cmd, shell=isinstance(cmd, str), capture_output=True, text=True, **kw)
 
 
+def run_group(cmd, timeout=5400, **kw):
+    """run a check in its own process group and kill the whole group afterwards (workers orphaned by an OOM kill of
+    their parent would otherwise keep the output pipes open for ever)"""
+    import signal
+    import tempfile
+    with tempfile.TemporaryFile('w+') as fo, tempfile.TemporaryFile('w+') as fe:
+        p = subprocess.Popen(cmd, stdout=fo, stderr=fe, text=True, start_new_session=True, **kw)
+        try:
+            rc = p.wait(timeout=timeout)
+        except subprocess.TimeoutExpired:
+            rc = -999
+        try:
+            os.killpg(p.pid, signal.SIGKILL)
+        except OSError:
+            pass
+        fo.seek(0)
+        fe.seek(0)
+
+        class R:
+            pass
+        r = R()
+        r.returncode, r.stdout, r.stderr = rc, fo.read(), fe.read()
+        return r
+
+
 def demo_run(wt, e, tdir):
     env = dict(os.environ, CARGO_TARGET_DIR=tdir, CARGO_NET_OFFLINE='true')
     if e.get('rustflags'):
@@ -86,7 +111,7 @@ def trial(e):
         env = dict(os.environ, VERIF_REPO=wt, CARGO_NET_OFFLINE='true')
         for c in e.get('checks') or [e['property']]:
             t = time.time()
-            r = sh([os.path.join(V, 'check'), c, '--tier', e.get('tier', 'quick')], env=env, cwd=V)
+            r = run_group([os.path.join(V, 'check'), c, '--tier', e.get('tier', 'quick')], env=env, cwd=V)
             sl = r.stdout.split('\n')
             first = ''
             for i, l in enumerate(sl):
